@@ -239,6 +239,14 @@ def check_class(rec, cls, fl, tag, hdesc):
         d = inst.to_properties_dict()
         if list(d) != exp or any(d[k] is not getattr(inst, k) for k in d):
             bad("to_properties_dict", f"{list(d)}, spec says {exp}", variant=vname)
+        if isinstance(d, dict):   # the mapping belongs to the caller: additions / deletions must not show in a later answer
+            ev()
+            d["scribbled by the caller"] = 1
+            for k in exp[:1]:
+                d.pop(k, None)
+            for who, again in (("same instance", inst.to_properties_dict()), ("another instance", cls(**kw).to_properties_dict())):
+                if list(again) != exp:
+                    bad("to_properties_dict|aliased-result", f"after the caller changed an earlier result in place, {who} answers {list(again)}, spec says {exp}", variant=vname)
         for sort in sorts:
             order = sorted(child_names) if sort else child_names
             exp_nodes, exp_wf, exp_iter = [], [], []
@@ -293,6 +301,15 @@ def check_class(rec, cls, fl, tag, hdesc):
                 got = inst.children
                 if len(got) != len(exp_nodes) or any(a is not b for a, b in zip(got, exp_nodes)):
                     bad("children", "children differs from the child nodes in declaration order", variant=vname)
+                # the answer belongs to the caller (work lists are popped / extended in place): what the caller does to it
+                # must not show in a later answer, of this instance or of another one
+                if isinstance(got, list):
+                    ev()
+                    got.append(inst)
+                    got.reverse()
+                    for who, again in (("same instance", inst.children), ("another instance", cls(**kw).children)):
+                        if len(again) != len(exp_nodes) or (who == "same instance" and any(a is not b for a, b in zip(again, exp_nodes))):
+                            bad("children|aliased-result", f"after the caller changed an earlier result in place, children of {who} has {len(again)} entries, spec says {len(exp_nodes)}", variant=vname)
 
 
 def _flagkind(fl, flags, got, exp):
